@@ -157,13 +157,22 @@ pub struct AmfCfg {
     /// allow the empty property name
     pub empty_names: bool,
     pub max_depth: u32,
+    /// chains of up to this many nested containers (0 = none).  The library documents a nesting
+    /// limit of 128; 200 goes beyond it.
+    pub chain: u32,
 }
 
 impl AmfCfg {
-    pub const LIB: AmfCfg = AmfCfg { wire: false, too_long: false, empty_names: false, max_depth: 4 };
-    pub const LIB_ANY: AmfCfg = AmfCfg { wire: false, too_long: true, empty_names: false, max_depth: 4 };
-    pub const WIRE: AmfCfg = AmfCfg { wire: true, too_long: false, empty_names: false, max_depth: 4 };
-    pub const SMALL: AmfCfg = AmfCfg { wire: false, too_long: false, empty_names: false, max_depth: 2 };
+    pub const LIB: AmfCfg = AmfCfg { wire: false, too_long: false, empty_names: false, max_depth: 4, chain: 0 };
+    pub const LIB_ANY: AmfCfg = AmfCfg { wire: false, too_long: true, empty_names: false, max_depth: 4, chain: 200 };
+    pub const WIRE: AmfCfg = AmfCfg { wire: true, too_long: false, empty_names: false, max_depth: 4, chain: 0 };
+    pub const SMALL: AmfCfg = AmfCfg { wire: false, too_long: false, empty_names: false, max_depth: 2, chain: 0 };
+    /// as LIB / WIRE, plus chains beyond the library's nesting limit
+    pub const LIB_DEEP: AmfCfg = AmfCfg { wire: false, too_long: false, empty_names: false, max_depth: 4, chain: 200 };
+    pub const WIRE_DEEP: AmfCfg = AmfCfg { wire: true, too_long: false, empty_names: false, max_depth: 4, chain: 200 };
+    /// as LIB / WIRE, plus chains up to the library's nesting limit
+    pub const LIB_CHAIN: AmfCfg = AmfCfg { wire: false, too_long: false, empty_names: false, max_depth: 4, chain: 128 };
+    pub const WIRE_CHAIN: AmfCfg = AmfCfg { wire: true, too_long: false, empty_names: false, max_depth: 4, chain: 128 };
 }
 
 pub const NUM_BITS: &[u64] = &[
@@ -271,7 +280,9 @@ pub fn amf_value(cfg: AmfCfg) -> BoxedStrategy<V> {
     let wire = cfg.wire;
     let too_long = cfg.too_long;
     let empty_names = cfg.empty_names;
-    leaf.prop_recursive(cfg.max_depth, 24, 4, move |inner| {
+    let chain = cfg.chain;
+    let chain_leaf = prop_oneof![Just(V::Null), amf_number_bits().prop_map(V::Num), Just(V::Str(S::lit("x"))), Just(V::Obj(vec![])), Just(V::Arr(vec![]))];
+    let tree = leaf.prop_recursive(cfg.max_depth, 24, 4, move |inner| {
         let pairs = proptest::collection::vec((amf_string(too_long, empty_names), inner.clone()), 0..4)
             .prop_map(dedup_pairs);
         // wide containers: element / property counts around powers of two and beyond 65535
@@ -309,6 +320,19 @@ pub fn amf_value(cfg: AmfCfg) -> BoxedStrategy<V> {
             .boxed()
         }
     })
+    .boxed();
+    if chain == 0 {
+        return tree;
+    }
+    // chains of nested containers: around 64 / 128 (limits an implementation may have), and any length
+    let depths = prop_oneof![
+        3 => pick(&[5u32, 31, 32, 33, 63, 64, 65, 100, 126, 127, 128, 129, 130, 200]).prop_map(move |d| d.min(chain)),
+        1 => (1u32..=chain),
+    ];
+    prop_oneof![
+        30 => tree,
+        1 => (depths, any::<u32>(), chain_leaf).prop_map(move |(depth, seed, leaf)| V::Deep { depth, seed, wire, leaf: Box::new(leaf) }),
+    ]
     .boxed()
 }
 
